@@ -348,6 +348,16 @@ def panel_configs(verif_seed):
     for n in (1, 3, 5):
         out.append({"exact": True, "recipe": {"k": "diag", "n": n, "seed": g.randrange(1 << 20), "pos": False},
                     "k": 0, "rand": "rademacher", "max_iters": g.choice([1, 3])})
+    # complex dtypes: keyed probes are real normals cast to complex, so E[z z^T] = I must still hold
+    out.append({"exact": True, "recipe": {"k": "diag", "n": 4, "dtype": "c16", "seed": g.randrange(1 << 20), "pos": False},
+                "k": 0, "rand": "rademacher", "max_iters": 1})
+    for rand in ("normal", "rademacher"):
+        for dt in ("c16", "c8") if rand == "normal" else ("c16", ):
+            n = g.choice([3, 4, 6])
+            out.append({"recipe": {"k": "generic", "n": n, "dtype": dt, "seed": g.randrange(1 << 20), "sym": "gen"},
+                        "k": g.choice([0, 1, -1]), "rand": rand, "max_iters": 1})
+    out.append({"recipe": {"k": "generic", "n": 5, "dtype": "f4", "seed": g.randrange(1 << 20), "sym": "gen"},
+                "k": g.choice([0, 2, -2]), "rand": "normal", "max_iters": 1})
     kinds = [lambda n, s: {"k": "dense", "n": n, "seed": s, "sym": "gen"},
              lambda n, s: {"k": "dense", "n": n, "seed": s, "sym": "psd"},
              lambda n, s: {"k": "tridiag", "n": n, "seed": s, "symm": False},
@@ -481,4 +491,33 @@ def path_programs_c17():
                 out.append({"name": "%s/%s/key=%s" % (fn, kname, key),
                             "program": {"property": "C17", "run_seed": 0, "rng0": 3, "config": {"path": [fn, kname, key]},
                                         "mode": "explicit", "steps": steps}})
+    return out
+
+
+# ------------------------------------------------------------------------------------------
+# Large-draw programs (C17): keyed draws of >= 2**20 elements on cheap structured operators, compared across
+# process environments (PYTHONHASHSEED, simulated number of usable CPUs); also reaches the n > 100 block logic.
+def large_programs_c17():
+    out = []
+
+    def prog(name, n, fn, **kw):
+        A = {"k": "ann", "name": "PSD", "of": {"k": "diag", "n": n, "dtype": "f8", "seed": 5, "pos": True}}
+        steps = [{"op": "make", "slot": "A0", "recipe": A},
+                 {"op": "call", "fn": fn, "args": dict({"A": {"slot": "A0"}}, **kw)},
+                 {"op": "user", "act": ["draw", "randn", 2], "slot": "s0"}]
+        for j, s in enumerate(steps):
+            s["id"] = j
+        out.append({"name": name, "program": {"property": "C17", "run_seed": 0, "rng0": 9, "config": {"large": name},
+                                              "mode": "explicit", "steps": steps}})
+
+    prog("hutch_n10500", 10500, "hutch", tol=0.5, max_iters=1, key=3, k=0)
+    prog("hutch_rademacher_n10500", 10500, "hutch", tol=0.5, max_iters=1, key=None, k=1, rand="rademacher")
+    prog("lanczos_n2p20", 2**20, "lanczos", max_iters=1, key=3)
+    prog("arnoldi_n2p20", 2**20, "arnoldi", max_iters=1, key=None)
+    prog("power_iteration_n2p20", 2**20, "power_iteration", max_iter=1, key=5)
+    prog("nystrom_n2p17_r8", 2**17, "nystrom", rank=8, key=2)
+    prog("randomized_svd_n2p17_r8", 2**17, "randomized_svd", rank=8)
+    prog("lobpcg_n2p18_k4", 2**18, "lobpcg", max_iters=4, key=1)
+    prog("hutch_n101", 101, "hutch", tol=0.5, max_iters=2, key=3, k=0)
+    prog("hutch_n1000", 1000, "hutch", tol=0.5, max_iters=1, key=3, k=-3)
     return out
